@@ -23,6 +23,8 @@ RULE = (
     "subject); oracle: the client is executed before and after with a scrubbed import state - same stdout - and every "
     "name it uses is still defined in the library. non-trivial = formatting changed the library text"
 )
+RULE += (" (b2) a library that uses its own public names internally (self.method, helper, re-exported import, static method) x every subset of 8 names used by "
+         "the client x preserved files in {client, client+library, library+client, the directory} x passes x safe x driver: the formatted file may itself be among the preserved ones.")
 ASSUMPTIONS = [
     "class members are put into the preserve set in both spellings the code accepts ('Class.member' and 'member')",
     "multiprocessing.Pool is replaced by an in-process serial pool for (b)",
